@@ -244,7 +244,11 @@ def execute(program, ctx, mode):
         for n, k in iat.items():
             if k == 'attr':
                 # in "odd-object" worlds some descriptions are instances of an Attribute subclass that is false in a boolean context
-                d[n] = (FalsyAttribute if (odd_world and h64(lbl, n, 'falsy-attr') % 2) else Attribute)('%s.%s' % (lbl, n))
+                # ... and some carry another name of the vocabulary as their own __name__ (an alias: `legacy = IBase['foo']`)
+                own = '%s.%s' % (lbl, n)
+                if odd_world and h64(lbl, n, 'alias-attr') % 3 == 0:
+                    own = NAMES[(NAMES.index(n) + 1) % len(NAMES)]
+                d[n] = (FalsyAttribute if (odd_world and h64(lbl, n, 'falsy-attr') % 2) else Attribute)(own)
             else:
                 f = (lambda self, x=1: None)
                 f.__name__ = n
